@@ -6,15 +6,25 @@ ID = "C06"
 AREA = M.AREA
 LEAN_PROPS = "Litep2pVerif.Props.C06"
 THEOREMS = ["limits_inv", "counted_iff_open", "released_once", "two_per_peer", "two_per_peer_reject",
-            "below_limit_accepts"]
+            "below_limit_accepts", "connection_ids_unique", "slot_released_when_connection_ends"]
 MANIFEST = {
     "text": "Lean 4 theorems about an executable operational model of the connection manager (PeerState, ConnectionLimits, "
             "TransportManager bookkeeping): limits_inv, counted_iff_open, released_once, two_per_peer(+_reject), "
             "below_limit_accepts — proved by an invariant over ALL input histories (no assumption on the transport) and all "
             "limit configurations incl. none/0. The model is tied to the real TransportManager on every run by a seeded "
             "differential run (scripted Transport, every call/event/peer state/counter compared per step) and a "
-            "property-level oracle counting live connections.",
-    "note": "Trusted: Lean kernel; axioms propext/Quot.sound; the hand-written model and its sampled tie (adapter "
+            "property-level oracle counting live connections. Coverage round mgr2: connection_ids_unique — dials and the ids the "
+            "transports take (TransportHandle::next_connection_id of the handle transport_handle() returns) come from ONE counter; "
+            "under the transport contract the ids of all live connections, inbound and outbound, are pairwise distinct, below the "
+            "counter, shared with no waiting inbound socket and no dial in flight (so closing one connection releases no other "
+            "connection's slot); the adapter allocates inbound ids through the real handle, opens substreams (the other counter) in "
+            "between, and reports an id that already names a connection (`id-reuse`). slot_released_when_connection_ends — over the "
+            "connection-task model (Model/Conn): whatever protocols have shut down, the manager is told ConnectionClosed exactly "
+            "once when the task returns; the tcploop area (real TcpConnection loop + real ProtocolSet, protocols' receivers dropped "
+            "before the connection ends, every close path, directly and through the real accept future) runs as extra cases judged by "
+            "a C06 oracle (slot-leaked / released-twice / released-early); without protocols the c05 adapter reports closures "
+            "through the real ProtocolSet::report_connection_closed.",
+    "note": "Trusted: Lean kernel; axioms propext/Quot.sound/Classical.choice; the hand-written model and its sampled tie (adapter "
             "src/verif/c05.rs with a scripted Transport; guarded accessor for the two counters); default feature set (TCP only).",
     "technique": "Lean 4 proof (invariant by induction over all event histories) + model/implementation correspondence check",
     "design_ref": "DESIGN.md §7 C06",
@@ -23,14 +33,19 @@ RULE = ("closed-loop seeded histories (limit configs none/0/1/2/(3,2)/mixed; 2-3
         "add_known_address, every TransportEvent, accept results incl. failures, closures; 5-15 % of cases with arbitrary "
         "contract-breaking events; a stream of adversarial multiaddress shapes) run on the real TransportManager and on the "
         "Lean model; a case is non-trivial if a connection was accepted or rejected and an event was emitted; distinct = "
-        "distinct (ops, observations) transcripts by SHA-256")
-TRUSTED_BASE = ["Lean 4.33 kernel", "axioms: propext, Quot.sound only",
+        "distinct (ops, observations) transcripts by SHA-256; inbound connection ids allocated through the real "
+        "TransportHandle, `substream` operations (real TransportService::open_substream) in between; plus ~160 histories of the "
+        "real TcpConnection loop (tcploop area, focus C06: protocols shut down before the connection ends via every close path)")
+TRUSTED_BASE = ["Lean 4.33 kernel", "axioms: propext, Quot.sound, Classical.choice only",
+                "connection-task model Model/Conn/{Close,Loop,Permits}.lean tied to TcpConnection::start / ProtocolSet by the tcploop "
+                "area (adapter /repo/src/verif/tcploop.rs, checks/tcploop.py)",
                 "hand-written model Model/Manager/{PeerState,Limits,Dial}.lean tied to manager/{peer_state,limits,mod}.rs by this correspondence run",
                 "adapter /repo/src/verif/c05.rs (scripted Transport, one next() poll to quiescence per op), harness, verif.py, checks/c06.py, checks/mgr_common.py",
                 "tokio::select! fairness and FuturesUnordered order are not exercised (one ready source per step)",
                 "address-store eviction (capacity 64) outside the model (C10)"]
 ASSUMPTIONS = ["default feature set: TCP is the only SupportedTransport",
-               "connection ids come from the shared AtomicUsize (fetch_add): an id names one connection",
+               "connection_ids_unique: the transport reports an inbound connection under an id it took from the counter and a dialed one "
+               "under the id of its dial (the contract `allowed` of Model/Manager/Dial.lean); the limit theorems need no such assumption",
                "fewer than 64 addresses per peer in a case"]
 KEEP_PREFIX = 1
 
@@ -61,7 +76,7 @@ def oracle(case, out):
         o = out[i]
         if o == "skipped" or o.startswith("panic") or o == "bad-op":
             break
-        if o == "busy" or op.startswith("protocols "):
+        if o == "busy" or op.startswith("protocols ") or M.is_aux(op):
             continue
         obs = parse_obs(o)
         if obs is None:
@@ -69,6 +84,14 @@ def oracle(case, out):
         prev = g.prev
         t = op.split()
         live_before = {c: set(s) for c, s in g.live.items()}
+        if obs["res"].startswith("idclash:"):
+            # the transport allocated (TransportHandle::next_connection_id) an id that already names a connection
+            old, _, new = obs["res"][len("idclash:"):].partition("=")
+            if old in g.live or old in g.owed:
+                what = "open connection" if old in g.live else "dial in flight"
+                v("id-reuse", f"connection {new} was given the connection id of the {what} {old}: the limit "
+                  f"accounting (a set of ids) counts the two as one and closing one releases the other's slot", i)
+                break
         g.update(i, op, obs)
         if g.clash:
             break          # a duplicated `as=` label: connection identities are ambiguous from here on
@@ -118,6 +141,26 @@ def oracle(case, out):
 
 def matches_known(k, v):
     return False
+
+
+# ---------------------------------------------------------------- the real connection end (engine: extra_cases)
+# The manager releases a slot when the connection's ProtocolSet tells it `ConnectionClosed`
+# (ProtocolSet::report_connection_closed, called by the connection task on every exit path). The `tcploop` area drives
+# the REAL TcpConnection loop with a real ProtocolSet whose manager channel the adapter reads; here its cases (focus:
+# protocols that shut down before the connection ends) are judged by `tcploop.oracle_c06`.
+def extra_cases(rng, tier):
+    from . import tcploop
+    yield "TCPLOOP", tcploop.gen_cases(rng, tier, focus="C06")
+
+
+def oracle_extra(xpid, case, out):
+    from . import tcploop
+    return [dict(v, msg="(real TcpConnection loop + ProtocolSet, tcploop area) " + v["msg"]) for v in tcploop.oracle_c06(case, out)]
+
+
+def stats_extra(xpid, case, out, acc):
+    from . import tcploop
+    tcploop.stats(case, out, acc)
 
 
 # ---------------------------------------------------------------- real nodes through the public API (engine: extra_cases)
